@@ -3,7 +3,7 @@ from harness import wire as W
 
 RULE = ("timestamp pairs around the 2^32 wrap, backward steps 1..10^6, ticks 0..10, elapsed ms around min wait / grace / max wait, "
         "tick counts aimed at frequencies straddling min/max scale and every rounding-bucket edge (with fractional parts), all packet "
-        "types incl. invalid ones and fragments, other options (also known kinds with a wrong length) in front of the timestamp option (a fifth of them through ONE reused parsed Packet object whose fragment bit / type were updated since its last use), threshold variants; clock via replaced time.time_ns; non-trivial = model gives a "
+        "types incl. invalid ones and fragments, other options (also known kinds with a wrong length) in front of the timestamp option (a fifth of them through ONE reused parsed Packet object whose fragment bit / type were updated since its last use), threshold variants; clock via replaced time.time_ns (both readings at unrelated offsets inside their millisecond); non-trivial = model gives a "
         "verdict or tps=-1; raw_frequency compared bit-for-bit with the correctly rounded num/den")
 GEN_TIE = ['uptime']     # round_frequency, the packet gate, the whole body of fingerprint_uptime and Uptime.__post_init__ are also TRANSLATED from /repo's source on every run and proved equal to the model (floats as exact rationals)
 ASSUMPTIONS = ["thresholds are sane: 0 < min scale <= max scale, min wait >= 1, grace > 0",
@@ -103,10 +103,13 @@ def impl_init():
         vals = dict(min_timestamp_scale=o["min_sc"][0] / o["min_sc"][1], max_timestamp_scale=o["max_sc"][0] / o["max_sc"][1],
                     min_timestamp_wait=o["min_wait"], max_timestamp_wait=o["max_wait"], timestamp_grace=o["grace"])
         # the clock starts somewhere else in every case: a receive time that is not taken when the signature is built shows up
-        clock["ns"] = 1_700_000_000_000_000_000 + ((c["ts"] * 7919 + c["ms"] * 31 + c["last"]) % 10_000_000) * 1_000_000
+        # ... and at some point INSIDE a millisecond (the two readings at unrelated sub-millisecond offsets): get_unix_time_ms is the
+        # whole-millisecond part of the clock, so the elapsed time is the difference of the two whole-millisecond readings
+        base_ms = 1_700_000_000_000 + (c["ts"] * 7919 + c["ms"] * 31 + c["last"]) % 10_000_000
+        clock["ns"] = base_ms * 1_000_000 + (c["ts"] * 2654435761 + c["ms"]) % 1_000_000
         lastp = U.scapy_from_spec(spec_of(2, c["last"], c["last_has_ts"], False, pre=c["last"] + c["ms"]))
         last = TCPPacketSignature.from_packet(parse_packet(lastp))
-        clock["ns"] += c["ms"] * 1_000_000
+        clock["ns"] = (base_ms + c["ms"]) * 1_000_000 + (c["last"] * 40503 + c["ms"] * 7 + 500_000) % 1_000_000
         pkt = U.scapy_from_spec(spec_of(c["flags"], c["ts"], c["has_ts"], c["frag"], pre=c["ts"] + c["ms"]))
         if (c["ts"] + c["ms"] + c["flags"]) % 5 == 0:
             # the caller keeps ONE parsed Packet (plain mutable dataclasses), has used it before while it described another packet
